@@ -194,6 +194,13 @@ def work(arg):
                 raise core.HarnessError(f'cannot build a converted isotherm for {cfg}: {mk.brief()}')
             res['viol'] += one(mk.value, fmt, target, 'point', {'units': cfg, 'shape': spec, 'reached_by': 'conversion from default units'},
                                {'reached_by': 'conversion'}, list(meta_small))
+        elif kind == 'gapped-index':
+            import pygaps
+            df = g.point_frame(*spec, scale)
+            df.index = [3, 4, 6, 7, 11, 12, 20][:len(df)]
+            iso = pygaps.PointIsotherm(isotherm_data=df, pressure_key='pressure', loading_key='loading', material='gen-mat', adsorbate='N2',
+                                       temperature=77.355 if cfg[6] == 'K' else -195.795, **g.units(cfg), **meta_small)
+            res['viol'] += one(iso, fmt, target, 'point', {'units': cfg, 'shape': spec, 'row labels': list(df.index)}, {'index': 'gapped'}, list(meta_small))
         elif kind == 'custom-keys':
             import pygaps
             df = g.point_frame(*spec, scale).rename(columns={'pressure': 'p_abs', 'loading': 'uptake'})
@@ -239,8 +246,9 @@ def work(arg):
             res['viol'] += one(iso, fmt, target, cls, {'units': cfg, 'material': mat}, {'material': 'with-properties'}, ['note'])
         elif kind == 'model':
             name, how = spec
+            extra_kw = dict(rmse=0.0, prange=(0.0, 0.9), lrange=(0.0, 3.5)) if how == 'zero-fields' else {}
             mk = core.call(g.mk_model, cfg, name, meta_small, fitted_dr=(how == 'fitted'),
-                           params=({'K': 3.456789e-06, 'n_m': 4.5123456789} if how == 'small-parameters' else None))
+                           params=({'K': 3.456789e-06, 'n_m': 4.5123456789} if how == 'small-parameters' else None), **extra_kw)
             if not mk.ok:
                 continue
             res['viol'] += one(mk.value, fmt, target, 'model', {'units': cfg, 'model': name, 'built': how}, {'model': name}, list(meta_small))
@@ -290,6 +298,8 @@ def run(ctx):
                 if not ctx.quick or ci in (0, 3, 5) or spec[0] == 4:
                     jobs.append(('point', fmt, cfg, spec, ctx.scale))
             jobs.append(('converted', fmt, cfg, (4, 'guessable', 'numeric'), ctx.scale))
+            jobs.append(('gapped-index', fmt, cfg, (7, 'guessable', 'numeric'), ctx.scale))
+            jobs.append(('gapped-index', fmt, cfg, (4, 'all-des', 'none'), ctx.scale))
             if fmt in ('csv', 'xls'):
                 jobs.append(('custom-keys', fmt, cfg, (4, 'guessable', 'numeric'), ctx.scale))
             if ci == 0:
@@ -308,6 +318,8 @@ def run(ctx):
                     jobs.append(('model', fmt, cfg, (name, 'fitted'), ctx.scale))
                 if name == 'Langmuir':
                     jobs.append(('model', fmt, cfg, (name, 'small-parameters'), ctx.scale))
+                if name in ('Langmuir', 'Henry', 'Toth'):
+                    jobs.append(('model', fmt, cfg, (name, 'zero-fields'), ctx.scale))
             if ci in (0, 2):
                 jobs.append(('from_model', fmt, cfg, None, ctx.scale))
         for cls in ('base', 'point'):
